@@ -18,9 +18,19 @@ class Head(packet.Packet):
         formats.UInt8Field('version', default=None),
     ]
 
+    def pre_dissect(self, s):
+        ''' The fixed-size fields cannot be read from fewer octets. '''
+        if len(s) < len(MAGIC_HEAD) + 1:
+            raise formats.VerifyError('Contact header too short')
+        return s
+
     def post_dissection(self, pkt):
         ''' remove padding from payload list after disect() completes '''
         formats.remove_padding(self)
+
+        if not self.payload:
+            raise formats.VerifyError('Contact header without payload')
+
         packet.Packet.post_dissection(self, pkt)
 
 
